@@ -22,7 +22,11 @@ From PV Require Import Model.Cells.
 Import ListNotations.
 Local Open Scope Z_scope.
 
-Record qentry := mkQ { q_atom : nat; q_cs : state; q_present : nat -> bool }.
+(* one get_near_cells call AND its use: the block was queried for q_atom and the caller
+   iterates it as the candidate partners of q_used (in the source always the same atom:
+   `closeatoms = cells.get_near_cells(atom)` directly followed by `for closeatom in closeatoms`
+   with `atom` as the subject - rows of Generated/C14Sites.v query_use) *)
+Record qentry := mkQ { q_atom : nat; q_used : nat; q_cs : state; q_present : nat -> bool }.
 
 Record ustate := mkU {
   cs : state;
@@ -80,9 +84,12 @@ Section Use.
         (fold_left (fun bd b => upd Nat.eqb bd b (remove_first h (bd b))) (bonds u h) (bonds u))
         (next u) (qlog u).
 
-  (* cells.get_near_cells(a) *)
-  Definition u_query (a : nat) (u : ustate) : ustate :=
-    mkU (cs u) (present u) (bonds u) (next u) (mkQ a (cs u) (present u) :: qlog u).
+  (* closeatoms = cells.get_near_cells(qa); for closeatom in closeatoms: ... used ... *)
+  Definition u_use (qa used : nat) (u : ustate) : ustate :=
+    mkU (cs u) (present u) (bonds u) (next u) (mkQ qa used (cs u) (present u) :: qlog u).
+
+  (* every use site of the source: the block is used for the atom it was queried for *)
+  Definition u_query (a : nat) (u : ustate) : ustate := u_use a a u.
 
   (* Residue.rotate_tetrahedral(atom1 = pivot, atom2 = atom, angle): every atom
      bonded to atom2 except atom1 is written; f = the new coordinates *)
